@@ -79,6 +79,11 @@ fn engine_shard(id: &str, tier: &str, seed: u64, replay: Option<&serde_json::Val
                 out.found.push(f);
             }
         }
+        if id == "C13" && replay.is_none() && out.found.is_empty() && shard.k == 9 % shard.n {
+            if let Some(f) = checks_e1::largest_body_lockstep(&mut out.cov) {
+                out.found.push(f);
+            }
+        }
         if id == "C09" && replay.is_none() && out.found.is_empty() {
             // concurrent part: clients acting at the same time vs. each alone
             let c = checks_c09::shard_run(tier, seed, shard);
